@@ -1,49 +1,139 @@
 ------------------------------ MODULE MountAdd ------------------------------
 (***************************************************************************)
-(* Implementation-shaped model of mount.FS.AddMount (property C06, last      *)
-(* clause): several goroutines mount at the SAME point concurrently.         *)
-(* Steps follow mount/fs.go addMount: an unlocked pre-check of the table,    *)
-(* mountMu.Lock, Open+Stat of the mount point through the current table,     *)
-(* LoadOrStore, Unlock.  TLC explores every interleaving and checks that     *)
-(* exactly one attempt succeeds and the table ends with exactly that mount.  *)
+(* Implementation-shaped model of mount.FS.AddMount (property C06: "the    *)
+(* mount table changes only by a successful AddMount; at most one mount    *)
+(* per point; a look-up sees the longest mounted prefix"), for several     *)
+(* goroutines calling AddMount concurrently.                               *)
+(*                                                                         *)
+(* Steps follow mount/fs.go addMount, one action per step between the      *)
+(* points the verif hook exposes:                                          *)
+(*   start  --PreCheck-->  unlocked look-up of the table: ErrExist, or go  *)
+(*                         on to the lock                                  *)
+(*   lock   --TryLock-->   mountMu.Lock: taken, or the goroutine blocks    *)
+(*                         until the holder returns                        *)
+(*   stat   --Check-->     Open+Stat of the mount point THROUGH THE        *)
+(*                         CURRENT TABLE (a point below another mount      *)
+(*                         point is looked up in that mount once it is     *)
+(*                         there): error, or go on                         *)
+(*   store  --Store-->     LoadOrStore: ok or ErrExist; deferred Unlock    *)
+(*                         hands the lock to a blocked goroutine           *)
+(* Look-ups (Mount(path)) are atomic reads of the table at any time.       *)
+(*                                                                         *)
+(* One variable, pure operators, one printed line per distinct state (the  *)
+(* harness forces every step on the real mount.FS through the hook gates). *)
+(* At most one goroutine is blocked on the mutex at a time (which of two    *)
+(* waiters sync.Mutex wakes is not specified).                             *)
 (***************************************************************************)
-EXTENDS Integers, FiniteSets, TLC
+EXTENDS Integers, Sequences, FiniteSets, TLC
+SX == INSTANCE SequencesExt
 
-CONSTANTS Threads,      \* e.g. {1, 2, 3}
-          PointIsDir    \* TRUE: the mount point exists as a directory (else every attempt must fail)
+CONSTANTS Threads,    \* set of goroutine ids (positive integers)
+          PointOf,    \* goroutine -> the point it mounts at ("a", "b", "a/b")
+          RootKind,   \* point -> "dir" | "file" | "missing" in the root file system (mounted file systems are empty)
+          Probes,     \* paths whose look-up is observed
+          PrefixPoints, \* probe -> the points that are a prefix of it (TLC has no string operations)
+          DepthOf       \* point -> number of elements
 
-VARIABLES pc, table, lock, res
+VARIABLE st   \* [pc, table, lock, res]
 
-vars == <<pc, table, lock, res>>
-None == 0
+Points == { PointOf[t] : t \in Threads }
+\* the point directly above p that can be a mount point itself ("" if none)
+Parent(p) == IF p = "a/b" THEN "a" ELSE ""
+IsPrefix(p, q) == p \in PrefixPoints[q]
 
-Init == /\ pc = [t \in Threads |-> "precheck"]
-        /\ table = None          \* which thread's FS is mounted at the point (0 = none)
-        /\ lock = None
-        /\ res = [t \in Threads |-> "-"]
+\* po, rk: the configuration, carried in the state so that the harness builds the same fixture (never changed)
+Init0 == [po    |-> PointOf,
+          rk    |-> RootKind,
+          pc    |-> [t \in Threads |-> "start"],
+          table |-> [p \in Points |-> 0],
+          lock  |-> 0,
+          res   |-> [t \in Threads |-> "-"]]
 
-Finish(t, r) == /\ res' = [res EXCEPT ![t] = r]
-                /\ pc' = [pc EXCEPT ![t] = "done"]
+Blocked(s) == { u \in Threads : s.pc[u] = "blocked" }
+\* the holder lets go: a blocked goroutine (at most one) gets the lock and stands after mountMu.Lock
+Release(s) == IF Blocked(s) = {} THEN [s EXCEPT !.lock = 0]
+              ELSE LET u == CHOOSE x \in Blocked(s) : TRUE IN [s EXCEPT !.lock = u, !.pc[u] = "stat"]
+Woken(s)   == IF Blocked(s) = {} THEN 0 ELSE CHOOSE x \in Blocked(s) : TRUE
 
-PreCheck(t) == /\ pc[t] = "precheck"
-               /\ IF table # None THEN Finish(t, "EEXIST") /\ UNCHANGED <<table, lock>>
-                  ELSE pc' = [pc EXCEPT ![t] = "lock"] /\ UNCHANGED <<table, lock, res>>
-Lock(t)     == /\ pc[t] = "lock" /\ lock = None
-               /\ lock' = t /\ pc' = [pc EXCEPT ![t] = "stat"] /\ UNCHANGED <<table, res>>
-Stat(t)     == /\ pc[t] = "stat"
-               /\ IF PointIsDir THEN pc' = [pc EXCEPT ![t] = "store"] /\ UNCHANGED <<table, lock, res>>
-                  ELSE Finish(t, "ENOTDIR-or-ENOENT") /\ lock' = None /\ UNCHANGED table
-Store(t)    == /\ pc[t] = "store"
-               /\ IF table = None THEN table' = t /\ Finish(t, "ok") ELSE Finish(t, "EEXIST") /\ UNCHANGED table
-               /\ lock' = None           \* deferred Unlock
-Next == \E t \in Threads : PreCheck(t) \/ Lock(t) \/ Stat(t) \/ Store(t)
-Spec == Init /\ [][Next]_vars /\ WF_vars(Next)
+\* e: where the goroutine stands after the step ("at:<hook point>", "blocked", "done:<result>"); w: goroutine woken
+Out(e, w, s, b) == [e |-> e, w |-> w, f |-> 0, st |-> s, b |-> b]
+Finish(s, t, r) == [s EXCEPT !.pc[t] = "done", !.res[t] = r]
 
-AllDone == \A t \in Threads : pc[t] = "done"
-Winners == { t \in Threads : res[t] = "ok" }
-ExactlyOneWinner ==
-  AllDone => IF PointIsDir THEN Cardinality(Winners) = 1 /\ table \in Winners
-             ELSE Winners = {} /\ table = None
-MutexOK == \A t \in Threads : pc[t] \in {"stat", "store"} => lock = t
+\* what Open+Stat of point p finds, through the table as it is now
+Found(s, p) == IF Parent(p) # "" /\ Parent(p) \in Points /\ s.table[Parent(p)] # 0 THEN "missing"  \* mounted file systems are empty
+               ELSE RootKind[p]
+
+Step(s, t) ==
+  LET p == PointOf[t] IN
+  CASE s.pc[t] = "start" ->
+         IF s.table[p] # 0 THEN Out("done:EEXIST", 0, Finish(s, t, "EEXIST"), "precheck/mounted")
+         ELSE Out("at:prechecked", 0, [s EXCEPT !.pc[t] = "lock"], "precheck/free")
+    [] s.pc[t] = "lock" ->
+         IF s.lock = 0 THEN Out("at:locked", 0, [s EXCEPT !.lock = t, !.pc[t] = "stat"], "lock/free")
+         ELSE Out("blocked", 0, [s EXCEPT !.pc[t] = "blocked"], "lock/held")
+    [] s.pc[t] = "stat" ->
+         LET k == Found(s, p) IN
+         IF k = "dir" THEN Out("at:checked", 0, [s EXCEPT !.pc[t] = "store"], "check/dir")
+         ELSE LET r == IF k = "file" THEN "ENOTDIR" ELSE "ENOENT" IN
+              Out("done:" \o r, Woken(s), Release(Finish(s, t, r)),
+                  "check/" \o k \o (IF Parent(p) # "" /\ Found(s, p) # RootKind[p] THEN "-hidden-by-mount" ELSE "")
+                           \o (IF Blocked(s) # {} THEN "-wakes" ELSE ""))
+    [] s.pc[t] = "store" ->
+         IF s.table[p] = 0
+         THEN Out("done:ok", Woken(s), Release(Finish([s EXCEPT !.table[p] = t], t, "ok")), "store/first" \o (IF Blocked(s) # {} THEN "-wakes" ELSE ""))
+         ELSE Out("done:EEXIST", Woken(s), Release(Finish(s, t, "EEXIST")), "store/lost-race" \o (IF Blocked(s) # {} THEN "-wakes" ELSE ""))
+
+\* look-up: the file system serving path q = the longest mounted point that is a prefix of q (0: the root file system)
+Serving(s, q) ==
+  LET cands == { p \in Points : s.table[p] # 0 /\ IsPrefix(p, q) } IN
+  IF cands = {} THEN 0
+  ELSE s.table[CHOOSE p \in cands : \A o \in cands : DepthOf[o] <= DepthOf[p]]
+Lookup(s, q) == [e |-> "ok", w |-> 0, f |-> Serving(s, q), st |-> s,
+                 b |-> "lookup/" \o (IF Serving(s, q) = 0 THEN "root" ELSE "mounted")]
+
+-----------------------------------------------------------------------------
+C(op, t, q) == [op |-> op, t |-> t, q |-> q]
+Calls == { C("step", t, "") : t \in Threads } \cup { C("lookup", 0, q) : q \in Probes }
+Enabled(s, c) ==
+  IF c.op = "lookup" THEN TRUE
+  ELSE /\ s.pc[c.t] \in {"start", "lock", "stat", "store"}
+       \* a second goroutine is not sent into the held mutex while one is blocked there
+       /\ (s.pc[c.t] = "lock" /\ s.lock # 0 => Blocked(s) = {})
+Eval(s, c) == IF c.op = "lookup" THEN Lookup(s, c.q) ELSE Step(s, c.t)
+
+CallSeq == SX!SetToSeq(Calls)
+Tr(s, c) ==
+  IF ~Enabled(s, c) THEN [e |-> "-", w |-> 0, f |-> 0, b |-> "-", n |-> "skip"]
+  ELSE LET r == Eval(s, c) IN [e |-> r.e, w |-> r.w, f |-> r.f, b |-> r.b, n |-> IF r.st = s THEN "=" ELSE r.st]
+Line(s) == [s |-> s, r |-> [i \in 1..Len(CallSeq) |-> Tr(s, CallSeq[i])]]
+
+Init == /\ st = Init0
+        /\ PrintT(ToString([calls |-> CallSeq]))
+Next == /\ PrintT(ToString(Line(st)))
+        /\ \E c \in { x \in Calls : x.op = "step" /\ Enabled(st, x) } : st' = Eval(st, c).st
+Spec == Init /\ [][Next]_st
+
+\* the same behaviours without printing, with fairness, for the liveness property
+NextQ == \E c \in { x \in Calls : x.op = "step" /\ Enabled(st, x) } : st' = Eval(st, c).st
+SpecLive == st = Init0 /\ [][NextQ]_st /\ WF_st(NextQ)
+
+-----------------------------------------------------------------------------
+AllDone == \A t \in Threads : st.pc[t] = "done"
+Winners(p) == { t \in Threads : PointOf[t] = p /\ st.res[t] = "ok" }
+ModelProps ==
+  \* the mutex: whoever stands between Lock and the return holds it, and nobody else does
+  /\ \A t \in Threads : st.pc[t] \in {"stat", "store"} <=> st.lock = t
+  /\ (st.lock = 0 => Blocked(st) = {})
+  \* the table changes only by a successful AddMount of that point, and is never overwritten
+  /\ \A p \in Points : st.table[p] # 0 => st.table[p] \in Winners(p)
+  /\ \A p \in Points : Cardinality(Winners(p)) <= 1
+  /\ \A p \in Points : Winners(p) # {} => st.table[p] \in Winners(p)
+  \* every attempt on an occupied point fails with ErrExist, never silently
+  /\ \A t \in Threads : st.res[t] = "EEXIST" => st.table[PointOf[t]] # 0
+  \* when all have returned: a point that is a directory where it was looked up has exactly one winner
+  /\ (AllDone => \A p \in Points : (RootKind[p] = "dir" /\ Parent(p) = "") => Cardinality(Winners(p)) = 1)
+  /\ (AllDone => \A p \in Points : RootKind[p] # "dir" => Winners(p) = {})
+  \* a look-up never names a file system that was not mounted on a prefix of the path
+  /\ \A q \in Probes : LET f == Serving(st, q) IN f # 0 => IsPrefix(PointOf[f], q) /\ st.res[f] = "ok"
 Termination == <>AllDone
 =============================================================================
